@@ -7,6 +7,7 @@ mod c11;
 mod c13;
 mod c16;
 mod c20;
+mod c18;
 mod client;
 mod editor;
 mod repo;
@@ -50,6 +51,7 @@ fn run_case(v: &Value) -> Value {
         13 => POOL.with(|pool| c13::run(pool, op, args)),
         16 => c16::run(op, args),
         20 => POOL.with(|pool| c20::run(pool, op, args)),
+        18 => RT.with(|rt| c18::run(rt, op, args)),
         _ => json!([999]),
     }
 }
